@@ -10,8 +10,12 @@
 //!       front_tags  <tls 0|1> <how the second add is made unacceptable: 0 same route again, 1 unknown path kind,
 //!                   2 nothing (accepted)> <tags idx of the first add> <tags idx of the second add>
 //!                   on the real `HttpProxy::add_http_frontend` / `HttpsProxy::add_https_frontend`
+//!       front_seq   <tls 0|1> (<verb 0 add | 1 remove> <route 0..3> <tags idx>)*   a history of AddHttp(s)Frontend /
+//!                   RemoveHttp(s)Frontend on ONE hostname of the real proxy object (routes 0-2: paths / /a /b,
+//!                   route 3: an unknown path kind, never acceptable); model: coq/C07/Tags.v
 //! obs:  ok|err  connect_timeout-after  sticky-changed
 //!       front_tags: ok|err (first add)  ok|err (second add)  tags-of-the-hostname-changed-by-the-second-add
+//!       front_seq:  per step: ok|err  tags token of the hostname after the step (0 none, i+1 = tags pool i, 99 other)
 use mio::Token;
 use sozu_command_lib::proto::command::{
     CustomHttpAnswers, HstsConfig, HttpListenerConfig, HttpsListenerConfig, SocketAddress, UpdateHttpListenerConfig,
@@ -130,12 +134,114 @@ fn run(c: &Case, out: &mut Out) {
                     }
                 }
             }
+            "front_seq" => {
+                let tls = a[0] != 0;
+                let steps: Vec<(i128, i128, i128)> = a[1..].chunks(3).filter(|c| c.len() == 3).map(|c| (c[0], c[1], c[2])).collect();
+                match front_seq(tls, &steps) {
+                    Ok(res) => {
+                        // the bookkeeping of coq/C07/Tags.v on the answers: the routes accepted and not yet removed
+                        let mut routes = std::collections::BTreeSet::new();
+                        let mut tags: i128 = 0;
+                        let mut o = vec![];
+                        let who = if tls { "HttpsProxy" } else { "HttpProxy" };
+                        for (i, ((verb, r, t), (ok, tok))) in steps.iter().zip(res.iter()).enumerate() {
+                            o.push(ts(if *ok { "ok" } else { "err" }));
+                            o.push(tn(*tok));
+                            let what = format!("{who} step {i} ({} route {r} tags {t})", if *verb == 0 { "add" } else { "remove" });
+                            // (the router answers the removal of a route it does not hold with success: removal is idempotent,
+                            // only a rule it cannot parse is refused)
+                            let acceptable = if *verb == 0 { *r < 3 && !routes.contains(r) } else { *r < 3 };
+                            if *ok != acceptable {
+                                out.viol("worker-front-answer", &format!("{what}: answered {} although the route was {}", if *ok { "ok" } else { "an error" }, if *r >= 3 { "unparsable" } else if routes.contains(r) { "present" } else { "absent" }));
+                            }
+                            if !*ok {
+                                if *tok != tags {
+                                    out.viol("worker-front-trace", &format!("{what}: answered an error but the tags the listener keeps for the hostname changed: {tags} -> {tok}"));
+                                }
+                            } else if *verb == 0 {
+                                routes.insert(*r);
+                                if *tok != t.rem_euclid(3) + 1 {
+                                    out.viol("worker-front-tags", &format!("{what}: accepted but the hostname's tags are {tok}, not the frontend's"));
+                                }
+                            } else {
+                                routes.remove(r);
+                                let want = if routes.is_empty() { 0 } else { tags };
+                                if *tok != want {
+                                    out.viol("worker-front-tags", &format!("{what}: accepted, {} route(s) left for the hostname, but its tags went {tags} -> {tok} (want {want})", routes.len()));
+                                }
+                            }
+                            tags = *tok;
+                        }
+                        out.obs(&o);
+                    }
+                    Err(e) => {
+                        out.note(&format!("invalid-case: cannot build the proxy: {e}"));
+                        out.obs(&[]);
+                    }
+                }
+            }
             _ => {
                 out.note("invalid-case: unknown op");
                 out.obs(&[]);
             }
         }
     }
+}
+
+fn tags_tok(t: Option<String>) -> i128 {
+    match t {
+        None => 0,
+        Some(s) => (0..3)
+            .find(|i| sozu_command_lib::logging::CachedTags::new(tags_of(*i)).concatenated == s)
+            .map(|i| i + 1)
+            .unwrap_or(99),
+    }
+}
+
+/// -> per step (accepted, tags token of the hostname after the step)
+fn front_seq(tls: bool, steps: &[(i128, i128, i128)]) -> Result<Vec<(bool, i128)>, String> {
+    use sozu_command_lib::proto::command::{PathRule, RequestHttpFrontend};
+    use sozu_lib::ListenerHandler;
+    let parts = sozu_lib::testing::prebuild_server(8, 16384, false).map_err(|e| e.to_string())?;
+    let addr = SocketAddress::new_v4(127, 0, 0, 1, 8080);
+    let token = Token(7);
+    let front = |r: i128, t: i128| {
+        let mut f = RequestHttpFrontend {
+            cluster_id: Some("c0".into()),
+            address: addr,
+            hostname: HOST.into(),
+            path: PathRule::prefix(["/", "/a", "/b", "/c"][r.rem_euclid(4) as usize]),
+            position: 2,
+            tags: tags_of(t),
+            ..Default::default()
+        };
+        if r.rem_euclid(4) == 3 {
+            f.path.kind = 7;
+        }
+        f
+    };
+    let mut out = vec![];
+    if tls {
+        let cfg: HttpsListenerConfig =
+            sozu_command_lib::config::ListenerBuilder::new_https(addr).to_tls(None).map_err(|e| e.to_string())?;
+        let mut p = sozu_lib::https::HttpsProxy::new(parts.registry, parts.sessions.clone(), parts.pool.clone(), parts.backends.clone());
+        p.add_listener(cfg, token).map_err(|e| e.to_string())?;
+        let l = p.verif_get_listener(&token).ok_or("no listener")?;
+        for (verb, r, t) in steps {
+            let ok = if *verb == 0 { p.add_https_frontend(front(*r, *t)).is_ok() } else { p.remove_https_frontend(front(*r, *t)).is_ok() };
+            out.push((ok, tags_tok(l.borrow().get_concatenated_tags(HOST).map(|s| s.to_string()))));
+        }
+    } else {
+        let cfg = HttpListenerConfig { address: addr, ..Default::default() };
+        let mut p = sozu_lib::http::HttpProxy::new(parts.registry, parts.sessions.clone(), parts.pool.clone(), parts.backends.clone());
+        p.add_listener(cfg, token).map_err(|e| e.to_string())?;
+        let l = p.get_listener(&token).ok_or("no listener")?;
+        for (verb, r, t) in steps {
+            let ok = if *verb == 0 { p.add_http_frontend(front(*r, *t)).is_ok() } else { p.remove_http_frontend(front(*r, *t)).is_ok() };
+            out.push((ok, tags_tok(l.borrow().get_concatenated_tags(HOST).map(|s| s.to_string()))));
+        }
+    }
+    Ok(out)
 }
 
 const HOST: &str = "tags.example.com";
